@@ -19,7 +19,9 @@ import time
 
 VERIF = os.path.dirname(os.path.dirname(os.path.abspath(__file__)))
 REPO = os.environ.get("VERIF_REPO", "/repo")
-BUILD = os.path.join(VERIF, ".build")
+# VERIF_REPO (development only): run the checks against a scratch worktree of /repo, e.g. to try a
+# mutant without touching /repo.  Binaries then go to a build directory of their own.
+BUILD = os.path.join(VERIF, ".build" if REPO == "/repo" else ".build-" + re.sub(r"[^A-Za-z0-9]+", "_", REPO).strip("_"))
 GOENV = dict(GOFLAGS="-mod=mod", GOPROXY="off", GOSUMDB="off", GOTOOLCHAIN="local")
 NCPU = os.cpu_count() or 4
 
@@ -41,7 +43,15 @@ def build_harness(targets=None):
     with open(os.path.join(BUILD, ".lock"), "w") as lk:
         fcntl.flock(lk, fcntl.LOCK_EX)
         src = os.path.join(REPO, "go.sum")
-        dst = os.path.join(hdir, "go.sum")
+        modargs = []
+        if REPO == "/repo":
+            dst = os.path.join(hdir, "go.sum")
+        else:
+            alt = os.path.join(BUILD, "go.mod")
+            with open(alt, "w") as f:
+                f.write(open(os.path.join(hdir, "go.mod")).read().replace("=> /repo", "=> " + REPO))
+            dst = os.path.join(BUILD, "go.sum")
+            modargs = ["-modfile=" + alt]
         try:
             if not os.path.exists(dst) or open(src, "rb").read() != open(dst, "rb").read():
                 shutil.copy(src, dst)
@@ -49,7 +59,7 @@ def build_harness(targets=None):
             raise MachineryError("go.sum copy failed: %s" % e)
         pk = ["./cmd/" + t for t in targets] if targets else ["./cmd/..."]
         t0 = time.time()
-        p = subprocess.run(["go", "build", "-tags", "verif", "-o", BUILD + "/"] + pk,
+        p = subprocess.run(["go", "build"] + modargs + ["-tags", "verif", "-o", BUILD + "/"] + pk,
                            cwd=hdir, env=env, capture_output=True, text=True)
         if p.returncode != 0:
             raise MachineryError("harness build failed:\n" + p.stdout + p.stderr)
